@@ -33,6 +33,9 @@ type c19Case struct {
 	Log bool `json:"all_log_levels_live_logger,omitempty"`
 	// FIFO: the stack that is compacted is in FIFO mode (compaction has nothing to do with which end Pop takes)
 	FIFO bool `json:"fifo,omitempty"`
+	// Rej: the stack that is compacted carries a validity closure that objects to nil elements - the very
+	// state Defrag is there to repair
+	Rej bool `json:"validity_closure_objects_to_nil_elements,omitempty"`
 }
 
 func (cs c19Case) pattern() string {
@@ -249,6 +252,17 @@ func c19Run(c *Ctx, cs c19Case, count bool) {
 	}
 	if cs.Log {
 		target.SetLogger(c11EnvLogger).SetLogLevel("all")
+	}
+	if cs.Rej {
+		t := target
+		target.SetValidityPolicy(func(...any) error {
+			for i := 0; i < t.Len(); i++ {
+				if v, _ := t.Index(i); v == nil {
+					return errCat
+				}
+			}
+			return nil
+		})
 	}
 	var want []any
 	for _, v := range vals {
@@ -468,16 +482,16 @@ func c19Cases(c *Ctx) []c19Case {
 					if (opt.neg || opt.fwd) && (lim != 0 || n > maxLen-2) {
 						continue
 					}
-					out = append(out, c19Case{n, mask, lim, opt.neg, opt.fwd, "top", "LIST", false, "", false, 0, false, 0, false, false})
+					out = append(out, c19Case{n, mask, lim, opt.neg, opt.fwd, "top", "LIST", false, "", false, 0, false, 0, false, false, false})
 					if mask != (1<<n)-1 && !opt.neg && !opt.fwd && (lim == 0 || lim == 3) && n <= nestLen+2 {
-						out = append(out, c19Case{n, mask, lim, false, false, "top", "LIST", true, "", false, 0, false, 0, false, false})
+						out = append(out, c19Case{n, mask, lim, false, false, "top", "LIST", true, "", false, 0, false, 0, false, false, false})
 					}
 				}
 				if n <= nestLen && (lim == 0 || lim == 3) {
 					for _, pl := range []string{"top-mutex", "top-decorated", "in-stack", "alias", "ptr-alias", "in-cond", "in-cond-only", "in-cond-alias", "deep", "in-stack-parent-options", "in-cond-nonesting-parent"} {
-						out = append(out, c19Case{n, mask, lim, false, false, pl, "AND", false, "", false, 0, false, 0, false, false})
+						out = append(out, c19Case{n, mask, lim, false, false, pl, "AND", false, "", false, 0, false, 0, false, false, false})
 						if mask != (1<<n)-1 && n <= 4 && lim == 0 {
-							out = append(out, c19Case{n, mask, lim, false, false, pl, "AND", true, "", false, 0, false, 0, false, false})
+							out = append(out, c19Case{n, mask, lim, false, false, pl, "AND", true, "", false, 0, false, 0, false, false, false})
 						}
 					}
 				}
@@ -554,6 +568,17 @@ func c19Cases(c *Ctx) []c19Case {
 			}
 		}
 	}
+	// a validity closure on the stack that is compacted, unhappy for as long as there are nil elements
+	for n := 1; n <= 6; n++ {
+		for mask := 0; mask < 1<<n; mask++ {
+			for _, pl := range []string{"top", "in-stack", "in-cond", "alias"} {
+				if pl != "top" && n > nestLen {
+					continue
+				}
+				out = append(out, c19Case{Len: n, Mask: mask, Place: pl, Kind: "AND", Rej: true}, c19Case{Len: n, Mask: mask, Place: pl, Kind: "LIST", Rej: true, Neg: true, Fwd: true, Limit: 13})
+			}
+		}
+	}
 	for _, long := range []string{"1,5x0,1", "2x1,5x0,9x1", "5x0,20x1", "1,7x0,1,7x0,1"} {
 		out = append(out, c19Case{Place: "top", Kind: "LIST", Long: long, Log: true}, c19Case{Place: "in-stack", Kind: "AND", Long: long, Log: true})
 	}
@@ -600,7 +625,7 @@ func c19Cases(c *Ctx) []c19Case {
 				if pl == "top" {
 					kind = "LIST"
 				}
-				out = append(out, c19Case{0, 0, lim, false, false, pl, kind, false, long, false, 0, false, 0, false, false})
+				out = append(out, c19Case{0, 0, lim, false, false, pl, kind, false, long, false, 0, false, 0, false, false, false})
 			}
 		}
 	}
